@@ -14,7 +14,8 @@ from . import c10, c13
 BUILTIN = ["date", "email", "idn-email", "idn-hostname", "ipv4", "ipv6", "regex", "time", "ip-address"]
 NAMES = BUILTIN + ["unknown-format", "", "IPV4", "uri", "x"]
 BEHAVIOURS = ["true", "truthy-str", "truthy-list", "one", "false", "zero", "empty-str", "none", "empty-list",
-              "raise-listed-0", "raise-listed-1", "raise-unlisted", "raise-unlisted-lookup"]
+              "raise-listed-0", "raise-listed-1", "raise-listed-2", "raise-unlisted", "raise-unlisted-lookup",
+              "raise-unlisted-keyerror", "raise-unlisted-formaterror"]
 TRUTHY = {"true": True, "truthy-str": "x", "truthy-list": [0], "one": 1}
 FALSY = {"false": False, "zero": 0, "empty-str": "", "none": None, "empty-list": []}
 
@@ -25,6 +26,10 @@ class ListedA(Exception):
 
 class ListedB(ValueError):
     pass
+
+
+class ListedK(KeyError):
+    """a listed exception that happens to be a KeyError (a lookup-table checker)"""
 
 
 class Unlisted(Exception):
@@ -41,7 +46,8 @@ LEAF_KW = [("type", "string"), ("type", ["string", "null"]), ("minLength", 3), (
 def scripts(draw):
     out = {}
     for n in draw(st.lists(st.sampled_from(["s1", "s2", "ipv4", "date"]), min_size=1, max_size=3, unique=True)):
-        out[n] = {"listed": draw(st.sampled_from([[], ["ListedA"], ["ListedA", "ListedB"]])),
+        out[n] = {"listed": draw(st.sampled_from([[], ["ListedA"], ["ListedA", "ListedB"], ["ListedK"],
+                                                  ["ListedB", "ListedK", "ListedA"], ["KeyError"]])),
                   "default": draw(st.sampled_from(BEHAVIOURS)),
                   "table": {}}
     return out
@@ -114,7 +120,7 @@ class Scripted(object):
         self.script = script
         self.raised = []        # exception objects raised by listed behaviours, in order
         self.fc = impl.jsonschema.FormatChecker(formats=())
-        exc = {"ListedA": ListedA, "ListedB": ListedB}
+        exc = {"ListedA": ListedA, "ListedB": ListedB, "ListedK": ListedK, "KeyError": KeyError}
         for name, sc in script.items():
             listed = tuple(exc[n] for n in sc["listed"])
             self.fc.checks(name, raises=listed)(self.make(name, sc, listed))
@@ -136,6 +142,10 @@ class Scripted(object):
                 raise e
             if b == "raise-unlisted-lookup":
                 e = LookupError("scripted unlisted failure")
+            elif b == "raise-unlisted-keyerror" and KeyError not in listed:
+                e = KeyError("scripted unlisted failure")
+            elif b == "raise-unlisted-formaterror":
+                e = impl.exceptions.FormatError("scripted unlisted FormatError raised by the function itself")
             else:
                 e = Unlisted("scripted unlisted failure")
             self.raised.append(e)
@@ -153,6 +163,8 @@ class Scripted(object):
             return "fail"
         if b.startswith("raise-listed") and self.script[name]["listed"]:
             return "fail-cause"
+        if b == "raise-unlisted-formaterror":
+            return "fail"       # conforms() is false for it: FormatError is what check() itself raises
         return "propagate"
 
 
